@@ -7,7 +7,7 @@ import os
 import z3
 
 from . import SRC_ROOT
-from .values import (B, I, R, S, NAN, NONE, Bound, BreakSignal, ClassV, ContinueSignal, Ext, FiltV,
+from .values import (B, I, R, S, NAN, NONE, Bound, BreakSignal, ClassV, ContinueSignal, Ext, FiltV, HostObj,
                      FuncV, Infeasible, NativeFn, Obj, PyRaise, Rec, ReturnSignal, SeqV, SuperV, SymList,
                      Unsupported, box_bool, box_real, box_str, is_num, is_obj, is_sym, is_z,
                      is_zbool, is_zstr, isnone_of, item_of, len_of, real_of, str_of, truthy_of,
@@ -61,6 +61,11 @@ class ModuleV:
             return sub
         raise PyRaise(AttributeError, (f"module {self.modname} has no attribute {name}",))
 
+    def reload(self):
+        """forget the module state (module-level mutable state must not leak from one explored path into the next)"""
+        self.ns = {}
+        self.loaded = False
+
     def func(self, qualname):
         """look up Class.method or function by qualified name"""
         self.load()
@@ -75,6 +80,11 @@ class ModuleV:
 
     def __repr__(self):
         return f"<ModuleV {self.modname}>"
+
+
+class GenList(list):
+    """the eagerly evaluated items of a generator expression (next() consumes from the front)"""
+    pos = 0
 
 
 class _Poison:
@@ -367,6 +377,8 @@ class Engine:
         """z3 Bool / python bool view (truthiness) without forking"""
         if isinstance(v, bool):
             return v
+        if isinstance(v, HostObj):
+            return bool(v)
         if self.is_native_concrete(v):
             return self._concrete(lambda: bool(v))
         if v is None:
@@ -976,6 +988,7 @@ class Engine:
         return False
 
     def st_With(self, st, env):
+        hosts = []
         for item in st.items:
             cm = self.eval(item.context_expr, env)
             if is_obj(cm):
@@ -983,11 +996,21 @@ class Engine:
             elif isinstance(cm, Rec):
                 f, _ = cm.cls.lookup("__enter__")
                 entered = self.call(Bound(f, cm), [], {})
+            elif isinstance(cm, HostObj):
+                entered = cm.__enter__()
+                hosts.append(cm)
             else:
                 raise Unsupported(f"with over {type(cm).__name__}", st)
             if item.optional_vars is not None:
                 self.assign(item.optional_vars, entered, env)
-        self.exec_block(st.body, env)
+        try:
+            self.exec_block(st.body, env)
+        except PyRaise:
+            for cm in reversed(hosts):
+                cm.__exit__(Exception, None, None)
+            raise
+        for cm in reversed(hosts):
+            cm.__exit__(None, None, None)
         # __exit__ of opaque context managers is assumed not to swallow exceptions
 
     # ---------------- assignment ----------------
@@ -1067,6 +1090,9 @@ class Engine:
         if isinstance(o, _Namespace):
             o.d[name] = v
             return
+        if isinstance(o, HostObj):
+            setattr(o, name, v)
+            return
         raise Unsupported(f"setattr on {type(o).__name__}")
 
     def setitem(self, c, k, v):
@@ -1106,6 +1132,9 @@ class Engine:
             return c.setitem(self, k, v)
         if isinstance(c, Rec) and "__dict_storage__" in c.attrs:
             return self.setitem(c.attrs["__dict_storage__"], k, v)
+        if isinstance(c, HostObj):
+            c[k] = v
+            return
         if self.is_native_concrete(c) and not is_sym(k) and not _contains_sym(k) and not is_sym(v) and not _contains_sym(v):
             self._concrete(lambda: c.__setitem__(k, v))
             return
@@ -1366,7 +1395,8 @@ class Engine:
         return self._comp(node, env, "list")
 
     def ex_GeneratorExp(self, node, env):
-        return self._comp(node, env, "list")     # evaluated eagerly, in order (DESIGN 2.3.5)
+        out = self._comp(node, env, "list")     # evaluated eagerly, in order (DESIGN 2.3.5)
+        return GenList(out) if type(out) is list else out
 
     def ex_SetComp(self, node, env):
         out = self._comp(node, env, "list")
@@ -1545,6 +1575,12 @@ class Engine:
             if isinstance(op, ast.NotIn):
                 r = (not r) if isinstance(r, bool) else z3.Not(r)
             return r
+        for x, y, flip in ((a, b, False), (b, a, True)):
+            if isinstance(x, HostObj) and hasattr(x, "py_compare"):
+                nm = type(op).__name__
+                if flip:
+                    nm = {"Lt": "Gt", "LtE": "GtE", "Gt": "Lt", "GtE": "LtE"}.get(nm, nm)
+                return x.py_compare(nm, y)
         import numpy as _np
         if (isinstance(a, _np.ndarray) or isinstance(b, _np.ndarray)) and not is_sym(a) and not is_sym(b) \
                 and not _contains_sym(a) and not _contains_sym(b):
@@ -1620,6 +1656,8 @@ class Engine:
             return z3.Contains(_zs(c), _zs(x))
         if isinstance(c, _MapLike):
             return c.contains(self, x)
+        if isinstance(c, HostObj):
+            return x in c
         if is_obj(c):
             f = ufunc("contains", Obj, Obj, B)
             return f(c, self.box(x))
@@ -1714,6 +1752,14 @@ class Engine:
             raise Unsupported(f"attribute {name} of symbolic list")
         if isinstance(o, (list, dict, str, tuple, set, int, float)):
             return self.builtins_model.container_method(self, o, name)
+        if isinstance(o, HostObj):
+            try:
+                v = getattr(o, name)
+            except AttributeError:
+                raise PyRaise(AttributeError, (name,))
+            if callable(v) and not isinstance(v, type):
+                return NativeFn(f"host:{type(o).__name__}.{name}", v)
+            return v
         if self.is_native_concrete(o):
             # concrete library objects (slice, numpy arrays, ...) are evaluated by CPython itself
             try:
@@ -1853,6 +1899,8 @@ class Engine:
                 return self.call(Bound(f, c), [k], {})
             if "__dict_storage__" in c.attrs:
                 return self.getitem(c.attrs["__dict_storage__"], k)
+        if isinstance(c, HostObj):
+            return c[k]
         if self.is_native_concrete(c) and not is_sym(k) and not _contains_sym(k):
             return self._concrete(lambda: c[k])
         if isinstance(c, (list, tuple, dict, str, range)):
@@ -1889,6 +1937,8 @@ class Engine:
         from .tensor import PT
         if isinstance(v, PT):
             return v.iterate(self)
+        if isinstance(v, HostObj):
+            return list(v)
         if self.is_native_concrete(v):
             return self._concrete(lambda: list(v))
         if isinstance(v, Rec):
